@@ -31,7 +31,7 @@ def shards(tier, seed):
 
 def universe(seed, uid):
     rng = core.rng_for(seed, PROP, 'uni%d' % uid)
-    o = gen.Opts(attrs=False, nested_arrays=0.0, max_types=4, styles=('wrapped', 'wrapped', 'wrapped', 'bare', 'out_bare', 'out_bare', 'empty', 'empty'), memberless_subclasses=True)
+    o = gen.Opts(sub_names=True, attrs=False, nested_arrays=0.0, max_types=4, styles=('wrapped', 'wrapped', 'wrapped', 'bare', 'out_bare', 'out_bare', 'empty', 'empty'), memberless_subclasses=True)
     return gen.rand_universe(rng, o, uid=uid)
 
 
@@ -47,7 +47,8 @@ def null_call(B, server, md, args, mode):
     if md['style'] == 'bare':
         (an, at), = md['args']
         fields = gen.all_fields(ir, at['ref'])
-        vals = [(fn, B.to_spyne(ft, (args[0] or {}).get(fn))) for fn, ft in fields]
+        # (keyword arguments are Python names: a member whose public name differs is passed under its attribute name)
+        vals = [(ft.get('py', fn), B.to_spyne(ft, (args[0] or {}).get(fn))) for fn, ft in fields]
     else:
         vals = [(an, B.to_spyne(at, v)) for (an, at), v in zip(md['args'], args)]
     B.calls[:] = []
